@@ -21,7 +21,7 @@ LEVEL = "exploration"
 EXHAUSTIVE_WHOLE = True
 RULE = (
     "cells = step {setup M2,M4,M6; verify M2,M4; verify M2 answering a pair-resume request} x error encoding {0x01..0x07, 0x00, 0x08, 0xFF, empty, two-byte, none} x"
-    " State {expected, every other value 1..6, absent} x EVERY subset of the step's other fields (valid values from the"
+    " State {expected, every other value 0..7, 255, EMPTY item (06 00), two-byte values, absent} x EVERY subset of the step's other fields (valid values from the"
     " reference accessory of a real exchange) x item order {State,Error,others / State,others,Error} x feed mode"
     " {ip: decode_bytes(expected=...), ble: decoded dict}; plus IP and BLE add-pairing / remove-pairing against a scripted"
     " /pairings reply over the same code x state x extra-field grid. A cell is judged when it carries an Error or a wrong"
@@ -67,10 +67,20 @@ def mapped_class(err: bytes):
     }.get(bytes(err), E.InvalidError)
 
 
+def state_bytes(st):
+    """A state is an int (one byte) or explicit bytes: b"" = State item present but EMPTY, two bytes = over-long."""
+    return bytes([st]) if isinstance(st, int) else bytes(st)
+
+
+def wrong_states(exp_state):
+    # every other step number, 0, 7, 255, the empty State item (06 00) and the expected number followed by a second byte
+    return [s for s in range(0, 8) if s != exp_state] + [255, b"", bytes([exp_state, 0]), bytes([0, exp_state])]
+
+
 def all_cells():
     cells = []
     for step, (exp_state, others) in STEPS.items():
-        states = [exp_state] + [s for s in range(1, 7) if s != exp_state] + [None]
+        states = [exp_state] + wrong_states(exp_state) + [None]
         subsets = [c for r in range(len(others) + 1) for c in itertools.combinations(others, r)]
         for err in ERRORS:
             for st in states:
@@ -96,7 +106,7 @@ def build_reply(genuine_items, err, st, sub, order):
     for t in sub:
         if t not in g:
             others.append((t, b"\xa5" * 40))
-    head = [] if st is None else [(6, bytes([st]))]
+    head = [] if st is None else [(6, state_bytes(st))]
     e = [] if err is None else [(7, err)]
     if order == "error-first":
         return head + e + others
@@ -194,8 +204,8 @@ def pairings_cells():
     cells = []
     for op in ("add", "remove"):
         for err in ERRORS:
-            for st in (2, 1, 3, 4, 5, 6, None):
-                if err is None and st in (2, None):
+            for st in [2] + wrong_states(2) + [None]:
+                if err is None and (st is None or st == 2):
                     continue
                 for extra in (False, True):
                     cells.append((op, err, st, extra))
@@ -214,7 +224,7 @@ async def ip_pairings_cell(ctx, cell, idx) -> None:
     try:
         await asyncio.wait_for(w.connection.ensure_connection(), 30)
         conn = w.accessory.conns[-1]
-        items = ([] if st is None else [(6, bytes([st]))]) + ([] if err is None else [(7, err)])
+        items = ([] if st is None else [(6, state_bytes(st))]) + ([] if err is None else [(7, err)])
         if extra:
             items += [(1, b"other-controller"), (3, bytes(32)), (11, b"\x01")]
 
